@@ -150,6 +150,7 @@ def batch(spec: dict[str, Any], data_seed: int, it: int, rank: int,
         x = torch.randn((bs, *inp['shape']), generator=g).to(dt)
         # break symmetry/scale uniformity across features
         x = x * (1.0 + 0.5 * torch.arange(x.shape[-1]).to(dt) / x.shape[-1])
+        x = x * spec.get('input_gain', 1.0)
     y = torch.randn((bs, spec['out']), generator=g).to(dt)
     return x, y
 
